@@ -284,7 +284,7 @@ pub fn run(thorough: bool) -> Vec<Part> {
     }
     // write side: at most one write per try_write, whatever the stream answers (incl. EINTR)
     {
-        let cfg = crate::connw::WCfg { label: "write path: one write per try_write under every stream answer".into(), bodies: vec![5], max_enqueues: 2, all_lengths: false, bodyless_variants: false };
+        let cfg = crate::connw::WCfg { label: "write path: one write per try_write under every stream answer".into(), bodies: vec![5], max_enqueues: 2, all_lengths: false, bodyless_variants: false, max_reads: 0 };
         let st = bfs(&cfg, &Limits::default(), workers());
         part.add("write_path_states", st.states);
         part.add("write_path_transitions", st.transitions);
